@@ -2164,6 +2164,7 @@ def _self_aliases(fn):
 def normalize_module(tree: ast.Module, extern=None) -> ast.Module:
     from . import normalize2 as _n2
     _n2.singledispatch_to_chain(tree)
+    _n2.dissolve_namespace_classes(tree)
     _n2.flatten_private_bases(tree)
     _n2.inline_private_properties(tree)
     tree = _n2.MatchToIf().visit(tree)
@@ -2283,6 +2284,7 @@ def normalize_module(tree: ast.Module, extern=None) -> ast.Module:
     from . import normalize2 as n2
     n2.sentinel_gets(tree)
     n2.unused_sentinel_params(tree)
+    n2.unroll_reduce(tree)
     n2.inline_record_tables(tree)
     if n2.inline_value_objects(tree):
         _restore_anchor_names(tree)
@@ -2293,6 +2295,7 @@ def normalize_module(tree: ast.Module, extern=None) -> ast.Module:
     n2.inline_search_helpers(tree)
     n2.inline_loop_helpers(tree)
     n2.closure_forms(tree)
+    n2.lift_local_defs(tree)
     n2.generators_to_lists(tree)
     n2.class_constants(tree)
     for n in ast.walk(tree):
@@ -2326,6 +2329,7 @@ def normalize_module(tree: ast.Module, extern=None) -> ast.Module:
             if isinstance(n, ast.FunctionDef):
                 # (local functions handed to a worker that is now in place)
                 n2.inline_local_defs(n)
+                n2.propagate_local_constants(n)
         tree = Idioms().visit(tree)
         tree = Idioms2(coll).visit(tree)
         for n in ast.walk(tree):
